@@ -72,6 +72,10 @@ pub struct BigCase {
     /// node whose destructor clones its first stored handle
     pub clone_at: Option<u32>,
     pub order: u16,
+    /// payload type without drop glue (`mem::needs_drop::<T>() == false`): the
+    /// nodes own their handles in raw form (`Rc::into_raw`)
+    #[serde(default)]
+    pub nodrop: bool,
 }
 
 pub fn sizes(c: &BigCase, tier: Tier) -> (usize, usize) {
@@ -178,7 +182,8 @@ pub const L_GT128: u32 = 5;
 pub const L_GT4096: u32 = 6;
 pub const L_GT16: u32 = 7;
 pub const L_TAIL_GT1000: u32 = 8;
-pub const NAMES: [&str; 9] = ["adopted_tail", "outside_handles_kept", "outside_weaks", "destructor_clones_peer", "doubly_linked", "group>128", "group>4096", "group>16", "tail>1000"];
+pub const L_NODROP: u32 = 9;
+pub const NAMES: [&str; 10] = ["adopted_tail", "outside_handles_kept", "outside_weaks", "destructor_clones_peer", "doubly_linked", "group>128", "group>4096", "group>16", "tail>1000", "payload_without_drop_glue"];
 
 fn body(id: &str, c: &BigCase, tier: Tier) {
     let sh = shared();
@@ -358,11 +363,199 @@ fn body(id: &str, c: &BigCase, tier: Tier) {
     sh.phase = 0;
 }
 
+// ---- payload without drop glue ------------------------------------------------
+
+/// No `Drop` impl and no field with drop glue: `mem::needs_drop::<RNode>()` is
+/// false.  The node owns strong handles to its successors in raw form.
+pub struct RNode {
+    id: u32,
+    n_next: Cell<usize>,
+    next: Cell<[*const RNode; 4]>,
+}
+
+impl RNode {
+    fn push(&self, p: *const RNode) -> bool {
+        let k = self.n_next.get();
+        if k >= 4 {
+            return false;
+        }
+        let mut a = self.next.get();
+        a[k] = p;
+        self.next.set(a);
+        self.n_next.set(k + 1);
+        true
+    }
+}
+
+/// Run a library call with allocation counting on: everything the library
+/// allocates must be released by the library.
+fn trk<R>(f: impl FnOnce() -> R) -> R {
+    let _t = arena::track_on();
+    f()
+}
+
+fn body_nodrop(_id: &str, c: &BigCase, tier: Tier) {
+    use std::mem::ManuallyDrop;
+    assert!(!std::mem::needs_drop::<RNode>());
+    let sh = shared();
+    arena::st().count_only = true;
+    let (n, m) = sizes(c, tier);
+    // the nodrop scenario drops on the main thread; keep it moderate
+    let (n, m) = (n.min(20_000), m.min(10_000));
+    let total = n + m;
+    sh.counters[20] = total as u64;
+    let mut l = 1u64 << L_NODROP;
+    if m > 0 {
+        l |= 1 << L_TAIL;
+    }
+    if total > 16 {
+        l |= 1 << L_GT16;
+    }
+    if total > 128 {
+        l |= 1 << L_GT128;
+    }
+    if total > 4096 {
+        l |= 1 << L_GT4096;
+    }
+    let live0 = arena::st().live;
+    {
+        let mk = |id: usize| trk(|| Rc::new(RNode { id: id as u32, n_next: Cell::new(0), next: Cell::new([std::ptr::null(); 4]) }));
+        let borrow = |p: *const RNode| ManuallyDrop::new(unsafe { Rc::from_raw(p) });
+        let h0 = mk(0);
+        let mut slot: Vec<*const RNode> = vec![std::ptr::null(); total];
+        slot[0] = Rc::as_ptr(&h0);
+        let mut adoptions = 0usize;
+        let mut chain = |owner: usize, id: usize, slot: &mut Vec<*const RNode>| {
+            let o = borrow(slot[owner]);
+            let h = mk(id);
+            trk(|| unsafe { Rc::adopt_unchecked(&o, &h) });
+            let p = Rc::into_raw(h);
+            assert!(o.push(p));
+            slot[id] = p;
+        };
+        for i in 1..n {
+            chain(i - 1, i, &mut slot);
+            adoptions += 1;
+        }
+        for k in 0..m {
+            let owner = if k == 0 { n / 2 } else { n + k - 1 };
+            chain(owner, n + k, &mut slot);
+            adoptions += 1;
+        }
+        let mut edge = |a: usize, b: usize| {
+            let ha = borrow(slot[a]);
+            if ha.n_next.get() >= 4 {
+                return;
+            }
+            let hb = borrow(slot[b]);
+            let cl = trk(|| Rc::clone(&hb));
+            trk(|| unsafe { Rc::adopt_unchecked(&ha, &cl) });
+            ha.push(Rc::into_raw(cl));
+            adoptions += 1;
+        };
+        edge(n - 1, 0);
+        if c.double {
+            for i in 1..n {
+                edge(i, i - 1);
+            }
+        }
+        for &(a, b) in c.chords.iter().take(8) {
+            edge(a as usize % n, b as usize % n);
+        }
+        sh.counters[22] = adoptions as u64;
+        let mut kept: Vec<Rc<RNode>> = vec![];
+        for &k in c.keep.iter().take(3) {
+            let hb = borrow(slot[k as usize % n]);
+            kept.push(trk(|| Rc::clone(&hb)));
+        }
+        if !kept.is_empty() {
+            l |= 1 << L_KEEP;
+        }
+        // destruction is observed through Weak samples (there is no destructor)
+        let step = (total / 24).max(1);
+        let mut weaks: Vec<(usize, Weak<RNode>)> = vec![];
+        for i in (0..total).step_by(step) {
+            let hb = borrow(slot[i]);
+            weaks.push((i, trk(|| Rc::downgrade(&hb))));
+        }
+        sh.labels = l | (1 << L_WEAK);
+        exec::set_msg(&format!("payload without drop glue: ring of {} + tail of {} ({} adoptions)", n, m, adoptions));
+        sh.op = 1;
+        sh.phase = Phase::Lib as u32;
+        trk(|| drop(h0));
+        sh.phase = 0;
+        let alive = |weaks: &Vec<(usize, Weak<RNode>)>| -> usize {
+            let mut a = 0;
+            for (_, w) in weaks.iter() {
+                if w.strong_count() > 0 {
+                    a += 1;
+                }
+            }
+            a
+        };
+        if !kept.is_empty() {
+            let a = alive(&weaks);
+            if a != weaks.len() {
+                violate(View::Premature, &format!("group of {} (payload without drop glue): {} of {} sampled objects were destroyed although outside handles are held", total, weaks.len() - a, weaks.len()));
+            }
+            for h in &kept {
+                if h.id as usize >= total {
+                    violate(View::Premature, "held handle no longer yields the original value");
+                }
+            }
+            let k = kept.len();
+            for (step, h) in kept.drain(..).enumerate() {
+                sh.op = 2 + step as u32;
+                sh.phase = Phase::Lib as u32;
+                trk(|| drop(h));
+                sh.phase = 0;
+                if step + 1 < k && alive(&weaks) != weaks.len() {
+                    violate(View::Premature, &format!("group of {} (payload without drop glue): objects destroyed while {} outside handle(s) remain", total, k - step - 1));
+                }
+            }
+        }
+        let a = alive(&weaks);
+        if a != 0 {
+            violate_soft(View::Orphan, &format!("group of {} (payload without drop glue): every outside handle dropped but {} of {} sampled objects are still alive", total, a, weaks.len()));
+        }
+        for (i, w) in &weaks {
+            sh.phase = Phase::WeakCall as u32;
+            let up = trk(|| w.upgrade());
+            sh.phase = 0;
+            if a == 0 && up.is_some() {
+                violate_soft(View::Weak, &format!("Weak::upgrade returned a handle to destroyed object {}", i));
+            }
+            if let Some(h) = up {
+                trk(|| drop(h));
+            }
+        }
+        sh.phase = Phase::WeakCall as u32;
+        trk(|| drop(weaks));
+        sh.phase = 0;
+        if a != 0 {
+            return;
+        }
+    }
+    // C04: everything the library allocated for this group is released
+    let live = arena::st().live;
+    if live != live0 {
+        violate_soft(
+            View::Leak,
+            &format!("group of {} objects with a payload that has no drop glue: every object destroyed and every Weak dropped, but {} block(s) allocated by the library were never released", total, live.wrapping_sub(live0)),
+        );
+    }
+}
+
 pub struct BigKind;
 
 impl Kind for BigKind {
     type Case = BigCase;
     fn strategy(id: &str, _tier: Tier, _variant: u64) -> BoxedStrategy<BigCase> {
+        let nodrop_pct: u32 = match id {
+            "C04" | "C02" => 60,
+            "C16" => 0,
+            _ => 15,
+        };
         let (keep_lo, keep_hi, weak_hi, clone_pct): (usize, usize, usize, u32) = match id {
             "C01" | "C06" => (1, 3, 2, 0),
             "C03" => (0, 2, 1, 0),
@@ -389,6 +582,7 @@ impl Kind for BigKind {
                 weaks,
                 clone_at: if cp < clone_pct { Some(cn) } else { None },
                 order,
+                nodrop: (order >> 8) as u32 % 100 < nodrop_pct,
             })
             .boxed()
     }
@@ -396,7 +590,7 @@ impl Kind for BigKind {
         let views = props::prop(id).map(|p| p.views).unwrap_or(0) | View::Crash.bit() | View::Mem.bit() | View::LibPanic.bit();
         let cc = c.clone();
         let idc = id.to_string();
-        let mut r = exec::run_forked(views, 180, move || body(&idc, &cc, tier));
+        let mut r = exec::run_forked(views, 180, move || if cc.nodrop { body_nodrop(&idc, &cc, tier) } else { body(&idc, &cc, tier) });
         // a death of the process inside a drop that was not an expected abort
         if r.signal != 0 && r.outcome != exec::Outcome::ExpectedAbort && r.outcome != exec::Outcome::Timeout {
             let (n, m) = sizes(c, tier);
